@@ -197,6 +197,10 @@ Verdict prop(Tape& t, Run& run) {
 		std::string b;
 		if (saveBytes(nif, b, so) != 0)
 			return run.fail(sigBase + ":save-failed", detail("save #" + std::to_string(k) + " failed", ""));
+		if (const char* dd = getenv("VF_DUMP_DIR")) { // triage aid
+			std::ofstream df(std::string(dd) + "/save" + std::to_string(k) + ".nif", std::ios::binary);
+			df << b;
+		}
 		// bytes
 		if (useDefault) {
 			std::string canon, why;
@@ -204,6 +208,10 @@ Verdict prop(Tape& t, Run& run) {
 				run.exclude("canonicalisation not possible: " + why.substr(0, 60));
 			}
 			else {
+				if (const char* dd = getenv("VF_DUMP_DIR")) {
+					std::ofstream df(std::string(dd) + "/canon" + std::to_string(k) + ".txt", std::ios::binary);
+					df << canon;
+				}
 				if (k > 1 && !prevCanon.empty() && canon != prevCanon)
 					return run.fail(sigBase + ":save#" + std::to_string(k) + ":bytes",
 									detail("default save #" + std::to_string(k) + " differs from save #" + std::to_string(k - 1) + " in content (string order canonicalised)", firstDiff(prevBytes, b)));
